@@ -12,6 +12,18 @@ CLAIMED = {
     note="Trusted: Coq kernel, extraction (ExtrOcamlBasic only), OCaml driver, Go driver cmd/num, math/big. The model is a hand transcription; conformance is sampled (20k/600k structured cases), the theorems are unbounded.",
     design_ref="§6 C18"),
 }
+CLAIMED["C15"] = dict(
+    engine="kv",
+    technique="Coq proof (refinement of cachekv to a sorted-map overlay; merge-iterator state machine = overlay merge, by induction) + differential correspondence model vs store/cachekv",
+    text="Machine-checked: the cacheMergeIterator state machine transcribed from the code terminates and yields exactly the overlay of parent and cache items (sorted, duplicate-free, no deleted keys) for every pair of sequences and both directions; Get/Set/Delete/Write on cache nests of any depth refine the plain sorted map (parent untouched until Write, Write leaves parent = overlaid view and a clean wrapper). The model (incl. dirtyItems / memIterator mechanics) is tied to the code by running identical seeded programs on both every run and comparing every result.",
+    note="Trusted: Coq kernel, extraction, OCaml/Go drivers, tm-db MemDB as the base store. Partial: dirtyItems/unsorted/sorted-list mechanics are modelled and compared but their invariant is not yet proved; goroutine data-race freedom is outside a Gallina model (each entry point is one atomic step under the mutex).",
+    design_ref="§6 C15")
+CLAIMED["C16"] = dict(
+    engine="kv",
+    technique="Coq proof (PrefixEndBytes range characterisation by induction on bytes; gas meter arithmetic by lia) + differential correspondence model vs store/prefix, gaskv, tracekv, types/gas.go",
+    text="Machine-checked: [prefix, PrefixEndBytes(prefix)) is exactly the set of keys with that prefix for every non-empty prefix incl. all-0xFF; ConsumeGas adds exactly, raises out-of-gas exactly when the running total crosses the limit and reports (never wraps) an overflow; gas/trace stores return the wrapped store's result and log one line per traced op. The full wrapper models (per-iterator-step gas, trace order, prefix iterators) are compared with the code on random stackings every run, result + gas total + trace after every op.",
+    note="Trusted: Coq kernel, extraction, OCaml/Go drivers. tracekv does not trace Has (upstream behaviour) - modelled as coded. uint64 per-byte cost multiplication wraps only for values > 2^62 bytes (modelled as mod 2^64).",
+    design_ref="§6 C16")
 REASON_NOT_YET = "check not built yet in this round (design in DESIGN.md §6); will be claimed once its model, theorems and correspondence engine exist"
 
 def main():
@@ -44,6 +56,8 @@ def main():
         "engines": [
             {"name": "num", "path": "harness/cmd/num", "serves_properties": ["C18", "C20"],
              "kind_free_text": "differential run of types.Int/Uint/Dec/Coins against the extracted Coq model and exact specs"},
+            {"name": "kv", "path": "harness/cmd/kv", "serves_properties": ["C15", "C16"],
+             "kind_free_text": "random programs on random stackings of cachekv/prefix/gaskv/tracekv over MemDB vs the extracted Coq store model"},
         ],
         "checks": checks,
         "not_applicable": [{"property_id": p, "reason": REASON_NOT_YET} for p in ALL if p not in CLAIMED],
